@@ -18,7 +18,7 @@ pub const REQUIRED: &[&str] = &[
     "arm.dispatch[sse2].protein.c32", "arm.dispatch[avx2].protein.c32",
     "arm.generic.dna.c16", "arm.sse2.dna.c16", "arm.generic.protein.c16", "arm.sse2.protein.c16",
     "dispatch_forced.generic", "dispatch_forced.sse2", "dispatch_forced.avx2",
-    "class.L<M", "class.L=M", "class.rows>32", "class.wildcard_in_window", "class.neg_inf_score",
+    "class.L<M", "class.L=M", "class.rows>32", "class.reconfigured_for_wider_motif", "class.reused_buffer_same_rows", "class.wildcard_in_window", "class.neg_inf_score",
     "subrange.empty", "subrange.last_row", "subrange.inner",
 ];
 
@@ -241,6 +241,13 @@ fn run_alpha<A: Alphabet>(case: u64, rng: &mut Rng, rep: &mut Report, inp: &Inpu
     // ---- 32 columns -----------------------------------------------------------
     {
         let mut seq: StripedSequence<A, U32> = stripe_generic(&enc);
+        if rng.chance(0.3) && m >= 2 {
+            // the sequence served a shorter motif (or several) before: look-ahead rows are re-built
+            for _ in 0..rng.range(1, 2) {
+                seq.configure_wrap(rng.range(1, m - 1));
+            }
+            rep.cover("class.reconfigured_for_wider_motif");
+        }
         seq.configure(&pssm);
         let r_rows = seq.matrix().rows() - seq.wrap();
         if r_rows > 32 {
@@ -261,9 +268,15 @@ fn run_alpha<A: Alphabet>(case: u64, rng: &mut Rng, rep: &mut Report, inp: &Inpu
         }
         for &arm in ARMS32.iter() {
             let key = format!("arm.{}.{}.c32", arm.name(), inp.alpha);
-            // full scan into a poisoned, wrongly sized buffer
+            // full scan into a poisoned buffer: wrongly sized, or of the right row count but left by a
+            // scan that produced another number of values
             let mut buf = StripedScores::<f32, U32>::empty();
-            buf.resize(rng.range(0, r_rows + 3), 7);
+            if rng.chance(0.4) {
+                buf.resize(r_rows, exact.len() + rng.range(1, 9));
+                rep.cover("class.reused_buffer_same_rows");
+            } else {
+                buf.resize(rng.range(0, r_rows + 3), 7);
+            }
             buf.matrix_mut().fill(f32::NAN);
             let res = guard(|| score32::<A>(arm, &pssm, &seq, None, &mut buf));
             unforce();
